@@ -116,6 +116,10 @@ func strsLean(s []string) string {
 }
 
 func main() {
+	if len(os.Args) > 2 && os.Args[1] == "-geom" { // T1 translator of shp2geom.go (geom.go)
+		geomMain(os.Args[2])
+		return
+	}
 	repo := "/repo"
 	if len(os.Args) > 1 {
 		repo = os.Args[1]
